@@ -156,3 +156,186 @@ Proof. induction l as [|a [|b l] IH].
     + intros F. constructor; [exact (F O ltac:(simpl; lia))|].
       apply IH. intros i Hi. apply (F (S i)). simpl in *. lia.
 Qed.
+
+(* ====================================================================================================
+   Term level: Term.build_constraints = sum_c constraint_lam * C_c(beta)  (+ constraint_l2 * I iff non-zero)
+   ==================================================================================================== *)
+Definition square (M : list (list R)) (n : nat) : Prop := length M = n /\ Forall (fun r => length r = n) M.
+Fixpoint rsum (l : list R) : R := match l with [] => 0 | a :: l' => a + rsum l' end.
+Notation constraint_sumR := (constraint_sum Rrops). Notation term_constraintsR := (term_constraints Rrops).
+Notation con_matrixR := (con_matrix Rrops).
+
+Lemma gram_square' rows : square (gramR rows) (length rows).
+Proof. unfold gram; split; [apply map_length|]. apply Forall_map. apply Forall_forall. intros; apply map_length. Qed.
+Lemma mzero_square n : square (mzeroR n n) n.
+Proof. unfold mzero. split; [apply repeat_length|]. apply Forall_forall. intros r Hr. apply repeat_spec in Hr. subst. apply zeros_length. Qed.
+Lemma one_square : square [[0]] 1. Proof. split; [reflexivity|repeat constructor]. Qed.
+Lemma con_square c n beta : square (con_matrixR n beta c) n.
+Proof.
+  assert (G : forall d m, square (masked_diff_gram Rrops n d m) n).
+  { intros d m. unfold masked_diff_gram. pose proof (gram_square' (map (fun r => vmulR (diffnR d r) m) (identR n))) as S.
+    rewrite map_length in S. rewrite (proj2 (ident_lengths n)) in S. exact S. }
+  destruct c; cbn [con_matrix]; try apply mzero_square;
+  unfold monotonicity, convexity; destruct n as [|[|n]]; try apply one_square; apply G.
+Qed.
+Lemma ident_square n : square (identR n) n.
+Proof. destruct (ident_lengths n). split; assumption. Qed.
+Lemma matvec_length (M : list (list R)) v : length (matvecR M v) = length M. Proof. apply map_length. Qed.
+
+Lemma madd_rows A : forall B p, Forall (fun r => length r = p) A -> Forall (fun r => length r = p) B ->
+  Forall (fun r => length r = p) (maddR A B).
+Proof. induction A as [|a A IH]; intros [|b B] p FA FB; simpl; try constructor.
+  - inversion FA; subst. inversion FB; subst. rewrite vadd_length. lia.
+  - inversion FA; subst. inversion FB; subst. apply IH; assumption. Qed.
+Lemma madd_length A : forall B, length (maddR A B) = Nat.min (length A) (length B).
+Proof. induction A as [|a A IH]; intros [|b B]; simpl; auto. Qed.
+Lemma madd_square A B n : square A n -> square B n -> square (maddR A B) n.
+Proof. intros [LA FA] [LB FB]. split; [rewrite madd_length; lia|apply madd_rows; assumption]. Qed.
+Lemma mscale_square c A n : square A n -> square (mscaleR c A) n.
+Proof. intros [L F]. split; [unfold mscale; rewrite map_length; assumption|].
+  unfold mscale. apply Forall_map. eapply Forall_impl; [|exact F]. intros r Hr. simpl. rewrite vscale_length. assumption. Qed.
+
+Lemma matvec_madd' A : forall B p v, Forall (fun r => length r = p) A -> Forall (fun r => length r = p) B ->
+  matvecR (maddR A B) v = vaddR (matvecR A v) (matvecR B v).
+Proof. induction A as [|a A IH]; intros [|b B] p v FA FB; try reflexivity.
+  inversion FA; subst. inversion FB; subst. cbn [madd matvec map vadd]. f_equal.
+  - apply dot_vadd_l. congruence.
+  - apply (IH B (length a)); assumption. Qed.
+Lemma matvec_madd A B n v : square A n -> square B n ->
+  matvecR (maddR A B) v = vaddR (matvecR A v) (matvecR B v).
+Proof. intros [LA FA] [LB FB]. apply (matvec_madd' A B n); assumption. Qed.
+Lemma bil_madd A B n u v : square A n -> square B n ->
+  dotR u (matvecR (maddR A B) v) = dotR u (matvecR A v) + dotR u (matvecR B v).
+Proof. intros SA SB. rewrite (matvec_madd A B n v SA SB). apply dot_vadd_r.
+  rewrite !matvec_length. destruct SA, SB. congruence. Qed.
+Lemma matvec_mscale c A v : matvecR (mscaleR c A) v = vscaleR c (matvecR A v).
+Proof. unfold matvec, mscale, vscale. rewrite !map_map. apply map_ext. intros r. apply dot_vscale_l. Qed.
+Lemma bil_mscale c A u v : dotR u (matvecR (mscaleR c A) v) = c * dotR u (matvecR A v).
+Proof. rewrite matvec_mscale. apply dot_vscale_r. Qed.
+
+Lemma matvec_cons0' M b bs : matvecR (map (cons 0) M) (b :: bs) = matvecR M bs.
+Proof. unfold matvec. rewrite map_map. apply map_ext. intros r. cbn. lra. Qed.
+Lemma matvec_ident' n : forall bs, length bs = n -> matvecR (identR n) bs = bs.
+Proof. induction n as [|n IH]; intros [|b bs] H; simpl in H; try discriminate; [reflexivity|].
+  cbn [ident]. change (matvecR ((r1 Rrops :: zerosR n) :: map (cons (r0 Rrops)) (identR n)) (b :: bs))
+    with (dotR (1 :: zerosR n) (b :: bs) :: matvecR (map (cons 0) (identR n)) (b :: bs)).
+  rewrite matvec_cons0', IH by lia. cbn [dot]. rewrite dot_zeros_l. f_equal. cbn. lra. Qed.
+
+Lemma quad_madd A B n v : square A n -> square B n -> quadR (maddR A B) v = quadR A v + quadR B v.
+Proof. intros SA SB. unfold quad. apply (bil_madd A B n); assumption. Qed.
+Lemma quad_mscale c A v : quadR (mscaleR c A) v = c * quadR A v.
+Proof. unfold quad. apply bil_mscale. Qed.
+
+(* the form  v |-> sum over positions violating in beta of the squared differences of v *)
+Definition con_form (c : con) (beta v : list R) : R := sumsqR (vmulR (diffnR (con_order c) v) (con_mask c beta)).
+
+Lemma constraint_sum_gen n beta clam v : length beta = n -> length v = n ->
+  forall cons acc, square acc n ->
+  let M := fold_left (fun acc c => maddR acc (mscaleR clam (con_matrixR n beta c))) cons acc in
+  square M n /\ quadR M v = quadR acc v + clam * rsum (map (fun c => con_form c beta v) cons).
+Proof.
+  intros Hb Hv cons. induction cons as [|c cons IH]; intros acc SA; cbn [fold_left map rsum].
+  - split; [assumption|lra].
+  - assert (S1 : square (maddR acc (mscaleR clam (con_matrixR n beta c))) n)
+      by (apply madd_square; [assumption|apply mscale_square, con_square]).
+    destruct (IH _ S1) as [S2 Q]. split; [exact S2|]. cbv zeta in Q. rewrite Q.
+    rewrite (quad_madd _ _ n) by (try assumption; apply mscale_square, con_square).
+    rewrite quad_mscale.
+    rewrite (con_quadform_gen c n beta v Hb Hv). unfold con_form. lra.
+Qed.
+
+Lemma constraint_sum_quad n beta cons clam v : length beta = n -> length v = n ->
+  square (constraint_sumR n beta cons clam) n /\
+  quadR (constraint_sumR n beta cons clam) v = clam * rsum (map (fun c => con_form c beta v) cons).
+Proof. intros Hb Hv. unfold constraint_sum.
+  destruct (constraint_sum_gen n beta clam v Hb Hv cons (mzeroR n n) (mzero_square n)) as [S Q].
+  split; [exact S|]. cbv zeta in Q. rewrite Q, quad_mzero. lra. Qed.
+
+(* quadratic form of Term.build_constraints at an arbitrary vector v (mask from beta) *)
+Theorem term_quadform_gen n beta cons clam cl2 v : length beta = n -> length v = n ->
+  quadR (term_constraintsR n beta cons clam cl2) v =
+    clam * rsum (map (fun c => con_form c beta v) cons)
+    + (if any_nonzero Rrops (constraint_sumR n beta cons clam) then cl2 * sumsqR v else 0).
+Proof.
+  intros Hb Hv. unfold term_constraints. destruct (constraint_sum_quad n beta cons clam v Hb Hv) as [S Q].
+  destruct (any_nonzero Rrops (constraint_sumR n beta cons clam)).
+  - rewrite (quad_madd _ _ n) by (try assumption; apply mscale_square, ident_square).
+    rewrite quad_mscale, Q. unfold quad at 1. rewrite matvec_ident' by assumption. unfold sumsq. lra.
+  - rewrite Q. lra.
+Qed.
+
+Lemma con_form_self c beta : con_form c beta beta = sumsqR (viols c beta).
+Proof. unfold con_form, con_mask, viols. destruct (con_active c); [apply sumsq_masked|].
+  destruct (diffnR (con_order c) beta); reflexivity. Qed.
+Lemma con_form_nonneg c beta v : 0 <= con_form c beta v. Proof. apply sumsq_nonneg. Qed.
+Lemma rsum_nonneg {A} (f : A -> R) l : (forall x, 0 <= f x) -> 0 <= rsum (map f l).
+Proof. intros H. induction l; simpl; [lra|]. specialize (H a). lra. Qed.
+Lemma rsum_zero_iff {A} (f : A -> R) l : (forall x, 0 <= f x) -> (rsum (map f l) = 0 <-> Forall (fun x => f x = 0) l).
+Proof. intros H. induction l as [|a l IH]; simpl; [split; auto|].
+  pose proof (H a). pose proof (rsum_nonneg f l H). split.
+  - intros E. constructor; [lra|apply IH; lra].
+  - intros F. inversion F; subst. apply IH in H5. lra. Qed.
+
+(* quad (Term.build_constraints(beta)) beta = constraint_lam * (sum over the term's constraints of the sums of squared violating
+   differences) + constraint_l2 * |beta|^2 [only when the summed matrix is non-zero] *)
+Theorem term_quadform n beta cons clam cl2 : length beta = n ->
+  quadR (term_constraintsR n beta cons clam cl2) beta =
+    clam * rsum (map (fun c => sumsqR (viols c beta)) cons)
+    + (if any_nonzero Rrops (constraint_sumR n beta cons clam) then cl2 * sumsqR beta else 0).
+Proof. intros H. rewrite (term_quadform_gen n beta cons clam cl2 beta H H).
+  rewrite (map_ext _ (fun c => sumsqR (viols c beta)) (fun c => con_form_self c beta)). reflexivity. Qed.
+
+Theorem term_psd n beta cons clam cl2 v : length beta = n -> length v = n -> 0 <= clam -> 0 <= cl2 ->
+  0 <= quadR (term_constraintsR n beta cons clam cl2) v.
+Proof. intros Hb Hv Hc Hl. rewrite (term_quadform_gen n beta cons clam cl2 v Hb Hv).
+  pose proof (rsum_nonneg (fun c => con_form c beta v) cons (fun c => con_form_nonneg c beta v)).
+  pose proof (sumsq_nonneg v). destruct (any_nonzero _ _); nra. Qed.
+
+(* lower bound used by the violation bound: the ridge only adds *)
+Theorem term_quad_lower n beta cons clam cl2 v : length beta = n -> length v = n -> 0 <= cl2 ->
+  clam * rsum (map (fun c => con_form c beta v) cons) <= quadR (term_constraintsR n beta cons clam cl2) v.
+Proof. intros Hb Hv Hl. rewrite (term_quadform_gen n beta cons clam cl2 v Hb Hv).
+  pose proof (sumsq_nonneg v). destruct (any_nonzero _ _); nra. Qed.
+
+(* symmetry in bilinear form *)
+Definition bisym (M : list (list R)) (n : nat) : Prop :=
+  forall u v, length u = n -> length v = n -> dotR u (matvecR M v) = dotR v (matvecR M u).
+Lemma bil_gram' p rows u v : Forall (fun x => length x = p) rows -> length u = length rows -> length v = length rows ->
+  dotR u (matvecR (gramR rows) v) = dotR (lincombR p u rows) (lincombR p v rows).
+Proof. intros HF Hu Hv. unfold matvec, gram. rewrite map_map.
+  rewrite (map_ext_in _ (fun ri => dotR ri (lincombR p v rows))).
+  2:{ intros ri _. rewrite dot_comm. symmetry. apply dot_lincomb_r; auto. }
+  rewrite (dot_comm (lincombR p u rows)). rewrite (dot_lincomb_r p _ u rows HF Hu).
+  f_equal. apply map_ext. intros; apply dot_comm. Qed.
+Lemma masked_gram_bisym n d m : bisym (masked_diff_gram Rrops n d m) n.
+Proof. intros u v Hu Hv. unfold masked_diff_gram.
+  set (rows := map (fun r => vmulR (diffnR d r) m) (identR n)).
+  assert (L : length rows = n) by (unfold rows; rewrite map_length; apply ident_lengths).
+  assert (HF : Forall (fun x => length x = Nat.min (n - d) (length m)) rows).
+  { unfold rows. apply Forall_map. destruct (ident_lengths n) as [F _]. eapply Forall_impl; [|exact F].
+    intros r Hr. simpl in *. rewrite vmul_length, diffn_length, Hr. reflexivity. }
+  rewrite !(bil_gram' _ rows) by (try exact HF; congruence). apply dot_comm. Qed.
+Lemma mzero_bisym n : bisym (mzeroR n n) n.
+Proof. intros u v _ _. rewrite !matvec_mzero', !dot_zeros_r. reflexivity. Qed.
+Lemma one_bisym : bisym [[0]] 1.
+Proof. intros [|a [|? ?]] [|b [|? ?]] Hu Hv; try discriminate. cbn. lra. Qed.
+Lemma con_bisym c n beta : bisym (con_matrixR n beta c) n.
+Proof. destruct c; cbn [con_matrix]; try apply mzero_bisym; unfold monotonicity, convexity;
+  destruct n as [|[|n]]; try apply one_bisym; apply masked_gram_bisym. Qed.
+Lemma madd_bisym A B n : square A n -> square B n -> bisym A n -> bisym B n -> bisym (maddR A B) n.
+Proof. intros SA SB HA HB u v Hu Hv. rewrite !(bil_madd A B n) by assumption. rewrite (HA u v), (HB u v) by assumption. reflexivity. Qed.
+Lemma mscale_bisym c A n : bisym A n -> bisym (mscaleR c A) n.
+Proof. intros HA u v Hu Hv. rewrite !bil_mscale, (HA u v) by assumption. reflexivity. Qed.
+Lemma ident_bisym n : bisym (identR n) n.
+Proof. intros u v Hu Hv. rewrite !matvec_ident' by assumption. apply dot_comm. Qed.
+Lemma constraint_sum_bisym n beta clam : forall cons acc, square acc n -> bisym acc n ->
+  let M := fold_left (fun acc c => maddR acc (mscaleR clam (con_matrixR n beta c))) cons acc in square M n /\ bisym M n.
+Proof. induction cons as [|c cons IH]; intros acc SA BA; cbn [fold_left]; [split; assumption|].
+  apply IH.
+  - apply madd_square; [assumption|apply mscale_square, con_square].
+  - apply madd_bisym; try assumption; [apply mscale_square, con_square|apply mscale_bisym, con_bisym]. Qed.
+Theorem term_bisym n beta cons clam cl2 : bisym (term_constraintsR n beta cons clam cl2) n.
+Proof. unfold term_constraints, constraint_sum.
+  destruct (constraint_sum_bisym n beta clam cons (mzeroR n n) (mzero_square n) (mzero_bisym n)) as [S B]. cbv zeta in S, B.
+  destruct (any_nonzero _ _); [|exact B].
+  apply madd_bisym; try assumption; [apply mscale_square, ident_square|apply mscale_bisym, ident_bisym]. Qed.
